@@ -167,15 +167,22 @@ func (w *SessionWorld) collect(r epRef) []Dgram {
 	return ds
 }
 
-// AddrIndex maps an address back to its index (server = 1000).
+// AddrIndex maps an address back to its index (server = 1000); -1 for an address outside the pool.
+// The comparison is the harness's own (IP bytes, port, zone), not transport.EqualUDPAddress.
 func AddrIndex(a *net.UDPAddr) int {
 	if a == nil {
 		return -1
 	}
-	if a.Port == ServerAddr.Port && a.IP.Equal(ServerAddr.IP) {
+	same := func(b *net.UDPAddr) bool { return a.Port == b.Port && a.Zone == b.Zone && a.IP.Equal(b.IP) }
+	if same(ServerAddr) {
 		return 1000
 	}
-	return a.Port - 4000
+	for i := 0; i < 500; i++ {
+		if same(Addr(i)) {
+			return i
+		}
+	}
+	return -1
 }
 
 func (w *SessionWorld) sessionOf(sid []byte) int {
